@@ -1991,3 +1991,35 @@ def io_helper_forwarding(ctx):
     if f is not None:
         ctx.guarded(IO + "::co_io_result", Call(r"may::yield_now::get_co_para", transitive=False), lambda a: a.kind == "truth" and a.truth is True and simplify(a.origin)[0] in ("arg", "call"),
                     "co-io-result/co-para-only-in-coroutine", "the coroutine's result slot is consumed only in coroutine context", rule="R-EXIT", pred_label="edge `is_coroutine` is true")
+
+
+def true_result_sites(f):
+    """points that assign the constant `true` to the return place"""
+    return [pt for pt in f.points() if not f.is_term(pt) and f.node(pt).get("s") == "=" and not f.node(pt)["l"]["p"] and f.node(pt)["l"]["l"] == 0 and
+            f.node(pt)["rv"]["r"] == "use" and const_int(f, f.node(pt)["rv"]["o"]) == 1]
+
+def wait_success_evidence(ctx, fid, fast_rx, inst, what, rule="R-EXIT"):
+    """a timed wait reports success (`true`) only behind evidence: its fast-path test came out true, or park returned Ok"""
+    f = ctx.fn(rule, fid, inst)
+    if f is None: return
+    ts = true_result_sites(f)
+    if not ts:
+        ctx.missing(rule, fid, inst, "no `true` result in %s" % fid); return
+    ctx.guarded(fid, lambda g: ts, any_of(call_true(fast_rx), variant_of_call(r"may::sync::blocking::SyncBlocker::park", "Ok")), inst,
+                "%s reports success only when %s or when park() returned Ok (it was woken by the other side)" % (fid.rsplit("::", 2)[-2] + "::" + fid.rsplit("::", 1)[-1], what), rule=rule,
+                pred_label="edge fast-path test is true / `park()` is Ok")
+
+def wait_group_rules(ctx, rule="R-ORDER"):
+    WG = "may::sync::wait_group::WaitGroup"
+    f = ctx.fn(rule, WG + "::wait", "wait-group/leaves-before-waiting")
+    if f is None: return
+    drops = set(pt for pt in f.points() if f.is_term(pt) and ((f.node(pt)["t"] == "drop" and f.node(pt)["ty"] == WG) or
+                (f.node(pt)["t"] == "call" and (callee_name(f.node(pt)) or "").endswith("mem::drop") and f.node(pt)["args"] and
+                 (type_of_place(f, f.node(pt)["args"][0].get("m") or f.node(pt)["args"][0].get("c") or {"l": 0, "p": []}) or "") == WG)))
+    waits = ctx.an.sites(f, Call(r"(may::sync::condvar|std::sync(::poison::condvar)?)::Condvar::wait(_while|_timeout)?", transitive=False), "must")
+    if not drops or not waits:
+        ctx.missing(rule, WG + "::wait", "wait-group/leaves-before-waiting", "drops of self=%d condvar waits=%d" % (len(drops), len(waits))); return
+    r = ctx.an.reach(f, [Point(0, 0)], blocked=drops)
+    bad = [w for w in waits if w in r]
+    ctx.ob(rule, WG + "::wait", "wait-group/leaves-before-waiting", not bad, "WaitGroup::wait gives up its own reference (count - 1) before it waits for the count to reach 0" if not bad else
+           "WaitGroup::wait waits for the count to reach 0 while it still holds its own reference: it waits for itself", f.where(bad[0]) if bad else f.where())
